@@ -324,7 +324,7 @@
   (bag-increment! bag element (- count)))
 
 (define (bag->set bag)
-  (let ((ht (hash-table-copy (bag-table bag))))
+  (let ((ht (hash-table-copy (bag-table bag) #t)))
     (hash-table-map! (lambda (key count) key) ht)
     (make-set ht (bag-comparator bag))))
 
